@@ -2,7 +2,7 @@
 from world import amounts, specials
 
 ID = "C08"
-LEAN_MODULES = ["QtyModel.Props.C08"]
+LEAN_MODULES = ["QtyModel.Props.C08", "QtyModel.Props.TieScalar"]
 HARNESS_GROUPS = ()
 RULE = ("every unit of every quantity type (with reference unit, without, single-unit, dimensionless, "
         "astronomical in f64, synthetic) x amount classes incl. zero/-0/inf/NaN/subnormal (f64) and boundary "
